@@ -197,6 +197,31 @@ def h_sample_period(a, inst):
     return same_events(got, ref_sample(merged))
 
 
+# ------------------------------------------------------------------ feedback: the consumer feeds the source while a sample is delivered
+from reactivex.subject import Subject  # noqa: E402
+
+
+@harness(instances=lambda tier: [{"k": "sample"}], n=I(1, 3), extra=I(0, 1), timeout=(60, 300), stock=False)
+def h_sample_feedback(a, inst):
+    """source and sampler are Subjects; the consumer answers every sample v by pushing v + 1 into the source while the sample is
+    still being delivered; each later sampler tick must deliver that newer value (nothing pushed during a delivery is lost)"""
+    source, sampler = Subject(), Subject()
+    got = []
+
+    def consume(v):
+        got.append(v)
+        source.on_next(v + 1)
+
+    source.pipe(ops.sample(sampler)).subscribe(consume)
+    source.on_next(1)
+    for _ in range(a.n):
+        sampler.on_next(None)
+    if a.extra:
+        sampler.on_next(None)
+    cover("ran")
+    return got == list(range(1, a.n + a.extra + 1))
+
+
 ENCODED = ["reactivex/operators/_debounce.py", "reactivex/operators/_throttlefirst.py", "reactivex/operators/_sample.py",
            "reactivex/observable/timer.py", "reactivex/observable/interval.py", "reactivex/scheduler/periodicscheduler.py"]
 BOUNDS = {"quick": "N<=3 elements (throttle_first N<=4; sample with observable sampler N,M<=2, hot and cold), gaps in [0,4] ticks, due "
